@@ -4,11 +4,13 @@ import (
 	"bytes"
 	"crypto/sha256"
 	"fmt"
+	"github.com/aml-org/amf-custom-validator/pkg/config"
 	"math/rand"
 	"os"
 	"os/exec"
 	"path/filepath"
 	"strings"
+	"time"
 
 	"verif/lib"
 )
@@ -134,6 +136,7 @@ func c06(tier string) {
 		p, d   string
 		digest string
 		label  string
+		zero   string // digest under the clock that stands at the zero instant (the same clock is the same clock, whenever it is asked)
 	}
 	var mine []*pair
 	ctx.ForEach(n, func(i int) {
@@ -157,6 +160,10 @@ func c06(tier string) {
 			pr.p, pr.d, pr.label = fx.Profiles[r.Intn(len(fx.Profiles))], fx.Data[r.Intn(len(fx.Data))], "fixture"
 		case kind == 2:
 			pr.p, pr.d, pr.label = c17GoodProfile, twoSourceInfos(), "two-source-infos"
+		case kind == 6 || kind == 10:
+			// locations recorded as relative paths: what the report says about them does not depend on where the process runs
+			pr.p, pr.label = c14Profile().Text(), "relative-locations"
+			pr.d = strings.ReplaceAll(strings.ReplaceAll(lib.SourceMapDoc(), "file:///root.yaml", "specs/root.yaml"), "file:///lib.yaml", "../libs/lib.yaml")
 		case kind%8 == 5:
 			// a profile that re-binds built-in prefixes: must not influence what other profiles mean afterwards
 			prof, g := c06Profile(r, i)
@@ -206,11 +213,14 @@ func c06(tier string) {
 		if first.Failed() {
 			return
 		}
+		if oz := lib.ValidateCfg(pr.p, pr.d, nil, lib.FixedClock{}, config.DefaultReportConfiguration()); !oz.Failed() {
+			mine[len(mine)-1].zero = sha(oz.Report)
+		}
 		pf, df := filepath.Join(tmp, "p.yaml"), filepath.Join(tmp, "d.jsonld")
 		_ = os.WriteFile(pf, []byte(pr.p), 0o644)
 		_ = os.WriteFile(df, []byte(pr.d), 0o644)
 		// (b) fresh processes: report
-		if self != "" && i%2 == 0 {
+		if self != "" && (i%2 == 0 || pr.label == "relative-locations") {
 			seen := map[string]int{pr.digest: 1}
 			for k := 0; k < K; k++ {
 				// every fresh process runs somewhere else, in another time zone and locale
@@ -269,6 +279,7 @@ func c06(tier string) {
 			ctx.Sample(map[string]any{"kind": pr.label, "profile_head": head(pr.p, 25), "report_sha256": pr.digest})
 		}
 	})
+	time.Sleep(1100 * time.Millisecond) // the calendar second changes between the first visits and the revisits (no verdict depends on the duration)
 	// (e) again, after every other pair of this worker was validated in between (and in reverse order)
 	for k := len(mine) - 1; k >= 0; k-- {
 		pr := mine[k]
@@ -278,6 +289,13 @@ func c06(tier string) {
 			d = sha(o.Report)
 		}
 		ctx.Count("revalidations_after_other_profiles", 1)
+		if pr.zero != "" {
+			// seconds (at least one: see below) after the first call under the zero-instant clock
+			if oz := lib.ValidateCfg(pr.p, pr.d, nil, lib.FixedClock{}, config.DefaultReportConfiguration()); oz.Failed() || sha(oz.Report) != pr.zero {
+				ctx.Violation("history-dependent-report", fmt.Sprintf("%s pair: under a clock standing at the zero instant the report differs between two calls some seconds apart", pr.label), map[string]any{"profile": pr.p, "data": pr.d})
+			}
+			ctx.Count("revalidations_under_the_zero_instant_clock", 1)
+		}
 		if d != pr.digest {
 			ctx.Violation("history-dependent-report", fmt.Sprintf("%s pair: the report differs after other profiles were validated in the same process (%s vs %s)", pr.label, clip(d, 12), clip(pr.digest, 12)), map[string]any{"profile": pr.p, "data": pr.d})
 		}
